@@ -34,10 +34,11 @@ type raceParams struct {
 }
 
 type raceReport struct {
-	sig    string   // the two racing functions (top frames), sorted
-	funcs  []string // top frame of each access
-	frames []string // every function on the two access stacks
-	text   string
+	sig        string   // the two racing functions (top frames), sorted
+	funcs      []string // top frame of each access
+	frames     []string // every function on the two access stacks
+	text       string
+	incomplete bool // the detector could not restore one of the two stacks (its history buffer had wrapped)
 }
 
 // buildRace builds the stress program with the race detector, in a module of its own under the output directory
@@ -126,7 +127,8 @@ func parseRaces(stderr string) []raceReport {
 		}
 		s := append([]string(nil), funcs...)
 		sort.Strings(s)
-		out = append(out, raceReport{sig: strings.Join(s, " / "), funcs: funcs, frames: frames, text: strings.TrimSpace(blk)})
+		out = append(out, raceReport{sig: strings.Join(s, " / "), funcs: funcs, frames: frames, text: strings.TrimSpace(blk),
+			incomplete: strings.Contains(blk, "failed to restore the stack")})
 	}
 	return out
 }
@@ -158,11 +160,13 @@ func raceTags(r raceReport) []string {
 	return nil
 }
 
-func runRacePart(bin string, p raceParams, dir string, limit time.Duration) (stdout, stderr string, err error) {
+// history: GORACE history_size (the per-goroutine access history is 32K * 2^history entries; a report whose
+// earlier access has left the history has no stack for it)
+func runRacePart(bin string, p raceParams, dir string, limit time.Duration, history int) (stdout, stderr string, err error) {
 	args := []string{"-part", p.Part, "-dir", dir, "-n", fmt.Sprint(p.N), "-iters", fmt.Sprint(p.Iters),
 		"-rounds", fmt.Sprint(p.Rounds), "-seed", fmt.Sprint(p.Seed)}
 	cmd := exec.Command(bin, args...)
-	cmd.Env = append(os.Environ(), "GORACE=halt_on_error=0 exitcode=0")
+	cmd.Env = append(os.Environ(), fmt.Sprintf("GORACE=halt_on_error=0 exitcode=0 history_size=%d", history))
 	var so, se bytes.Buffer
 	cmd.Stdout, cmd.Stderr = &so, &se
 	if err = cmd.Start(); err != nil {
@@ -180,13 +184,21 @@ func runRacePart(bin string, p raceParams, dir string, limit time.Duration) (std
 	return so.String(), se.String(), err
 }
 
-func judgeRace(res *lib.Result, p raceParams, stdout, stderr string, err error, verbose bool) {
+// judgeRace: with deferIncomplete, a report that lacks one of its two stacks and therefore cannot be attributed
+// (no known finding matches it) is not reported but counted in the result: the caller runs the part again with a
+// larger history and judges that run without deferring.
+func judgeRace(res *lib.Result, p raceParams, stdout, stderr string, err error, verbose, deferIncomplete bool) (deferred int) {
 	res.Evaluations++
 	res.Count("race.runs." + p.Part)
 	seen := map[string]bool{}
 	for _, r := range parseRaces(stderr) {
 		res.Count("race.reports." + p.Part)
 		if seen[r.sig] {
+			continue
+		}
+		if deferIncomplete && r.incomplete && raceTags(r) == nil {
+			res.Count("race.reports-without-a-stack." + p.Part)
+			deferred++
 			continue
 		}
 		seen[r.sig] = true
@@ -224,6 +236,7 @@ func judgeRace(res *lib.Result, p raceParams, stdout, stderr string, err error, 
 	} else if len(seen) == 0 {
 		res.Nontrivial(fmt.Sprint("race-clean ", p.Part, p.N, p.Iters, p.Rounds, p.Seed))
 	}
+	return deferred
 }
 
 func tail2(s string, n int) string {
@@ -245,6 +258,11 @@ func runRace(cfg *lib.Config, res *lib.Result, rng *lib.Rng) {
 	if cfg.Thorough() {
 		n, iters, rounds = 12, 400, 12
 	}
+	// (a part whose goroutines block each other never prints DONE: it is killed after the limit and reported)
+	limit := 60 * time.Second
+	if cfg.Thorough() {
+		limit = 300 * time.Second
+	}
 	seed := rng.Next() % 1000000
 	type outT struct {
 		p              raceParams
@@ -259,13 +277,17 @@ func runRace(cfg *lib.Config, res *lib.Result, rng *lib.Rng) {
 		wg.Add(1)
 		go func() {
 			defer wg.Done()
-			so, se, err := runRacePart(bin, p, filepath.Join(cfg.Out, "fs", "race-"+part), 150*time.Second)
+			so, se, err := runRacePart(bin, p, filepath.Join(cfg.Out, "fs", "race-"+part), limit, 3)
 			outs[i] = outT{p, so, se, err}
 		}()
 	}
 	wg.Wait()
 	for _, o := range outs {
-		judgeRace(res, o.p, o.stdout, o.stderr, o.err, false)
+		if judgeRace(res, o.p, o.stdout, o.stderr, o.err, false, true) > 0 {
+			// a report that cannot be attributed for lack of a stack: once more, with a history that holds it
+			so, se, err := runRacePart(bin, o.p, filepath.Join(cfg.Out, "fs", "race-"+o.p.Part), 2*limit, 7)
+			judgeRace(res, o.p, so, se, err, false, false)
+		}
 	}
 	res.Extra["race_part"] = fmt.Sprintf("race-detector build of cmd/c13race: parts %v, %d goroutines x %d iterations x %d worlds each, seed %d", raceParts, n, iters, rounds, seed)
 	_ = os.Remove(bin)
@@ -282,9 +304,9 @@ func replayRace(cfg *lib.Config, res *lib.Result, in interface{}) {
 	fmt.Printf("stress program part %q, %d goroutines x %d iterations x %d worlds, seed %d (free-running: a data race may need several runs to show)\n",
 		p.Part, p.N, p.Iters, p.Rounds, p.Seed)
 	for try := 0; try < 3; try++ {
-		so, se, err := runRacePart(bin, p, filepath.Join(cfg.Out, "fs", "race-"+p.Part), 300*time.Second)
+		so, se, err := runRacePart(bin, p, filepath.Join(cfg.Out, "fs", "race-"+p.Part), 300*time.Second, 7)
 		before := len(res.Violations)
-		judgeRace(res, p, so, se, err, true)
+		judgeRace(res, p, so, se, err, true, false)
 		if len(res.Violations) > before {
 			break
 		}
